@@ -46,4 +46,46 @@ theorem example_hook :
     Gen.schemaHook true true true (fun d => d.code == 3 || d.code == 4) [⟨0, 3⟩, ⟨0, 4⟩] = .schema true := by
   constructor <;> rfl
 
+/-! ## `_resolve_numpy_dtype` -/
+
+open Gen in
+/-- the three spellings of a numpy array base type: `np.ndarray[Any, np.dtype[A]]` / `npt.NDArray[A]` (one scalar type),
+    `np.ndarray[Any, np.dtype[A | B | …]]` (a union of scalar types), `np.ndarray[Any, np.dtype[A] | np.dtype[B] | …]` (a union of
+    dtype objects); `shapeArg` is whatever stands in the first position -/
+def arrayOfScalar (shapeArg : TObj) (d : DT) : TObj := .node [shapeArg, .node [.leaf d]]
+open Gen in
+def arrayOfScalarUnion (shapeArg : TObj) (ds : List DT) : TObj := .node [shapeArg, .node [.node (ds.map .leaf)]]
+open Gen in
+def arrayOfDtypeUnion (shapeArg : TObj) (ds : List DT) : TObj := .node [shapeArg, .node (ds.map (fun d => .node [.leaf d]))]
+
+/-- **`_resolve_numpy_dtype` in the source**: a single scalar type is itself the declared list -/
+theorem resolveNumpyDtype_scalar (sh : Gen.TObj) (d : DT) :
+    Gen.resolveNumpyDtype (arrayOfScalar sh d) = some [.leaf d] := rfl
+
+/-- … a union of scalar types declares every member, in order (a union has at least two members, so it is never empty) -/
+theorem resolveNumpyDtype_scalar_union (sh : Gen.TObj) (ds : List DT) (h : ds ≠ []) :
+    Gen.resolveNumpyDtype (arrayOfScalarUnion sh ds) = some (ds.map .leaf) := by
+  cases ds with
+  | nil => exact absurd rfl h
+  | cons d ds => simp [Gen.resolveNumpyDtype, arrayOfScalarUnion, Gen.TObj.getArgs, Gen.orSeq]
+
+/-- … and so does a union of dtype objects: every member's scalar type, in order, none dropped -/
+theorem resolveNumpyDtype_dtype_union (sh : Gen.TObj) (ds : List DT) :
+    Gen.resolveNumpyDtype (arrayOfDtypeUnion sh ds) = some (ds.map .leaf) := by
+  have key : ∀ ds : List DT, (ds.map (fun d => Gen.TObj.node [.leaf d])).flatMap
+      (fun maybe_union => ((Gen.orSeq maybe_union.getArgs [maybe_union])).map (fun dtype => dtype)) = ds.map .leaf := by
+    intro ds
+    induction ds with
+    | nil => rfl
+    | cons d ds ih =>
+      rw [List.map_cons, List.flatMap_cons, ih]
+      rfl
+  change some ((ds.map (fun d => Gen.TObj.node [.leaf d])).flatMap _) = _
+  rw [key]
+
+/-- an array type without a dtype argument (a bare `np.ndarray[Any]`) is an IndexError, not a silently empty declaration -/
+theorem resolveNumpyDtype_needs_dtype_argument (sh : Gen.TObj) : Gen.resolveNumpyDtype (.node [sh]) = none := rfl
+
+example : Gen.resolveNumpyDtype (arrayOfDtypeUnion (.node []) [⟨0, 1⟩, ⟨0, 2⟩]) = some [.leaf ⟨0, 1⟩, .leaf ⟨0, 2⟩] := rfl
+
 end Dltype.CorePyd
